@@ -20,7 +20,7 @@ RULE = ("methods = (digraph on p0's statements as adjacency bitmask, extra-edge 
         "generated once; non-trivial = methods with at least one edge or extra feature; distinct_outcomes = distinct "
         "(verdict, error-count>0, reference verdict, reason) tuples")
 ASSUMPTIONS = ["statements are plain assignments / one SwitchPhase / flag assignments; the second phase is fixed",
-               "a wall-clock guard of 20 s decides 'hangs' (confirmed with a deterministic line budget)"]
+               "a wall-clock guard of 120 s decides 'hangs' (confirmed with a deterministic line budget)"]
 LEVEL_TEXT = ("All digraphs on up to 4 statements (65536 for n=4) are crossed with the ill-formedness features the property "
               "names; acceptance is compared with an independent checker in both directions, the exception type and message "
               "count are checked on rejection, and accepted methods are processed by the interpreter, the Python generator "
@@ -102,7 +102,7 @@ def check_method(n, edges, extras, switch, flags, consumers=True, fortran=False)
     dag = build_method(n, edges, extras, switch, flags)
     verdict = None
     try:
-        with kernel.time_limit(20):
+        with kernel.time_limit(120):
             verify_code(dag)
         verdict = "accepted"
     except kernel.Budget:
@@ -140,7 +140,7 @@ def run_consumers(dag, fortran):
     try:
         it = NumpyInterpreter(dag, {})
         it.set_up(t_start=0, dt_start=1, context={})
-        with kernel.time_limit(20):
+        with kernel.time_limit(120):
             for _ in it.run(max_steps=2):
                 pass
     except kernel.Budget:
@@ -149,7 +149,7 @@ def run_consumers(dag, fortran):
         return ("consumer-fails(interpreter,%s)" % type(e).__name__, "interpreter: %s: %s" % (type(e).__name__, e))
     try:
         from dagrt.codegen.python import CodeGenerator
-        with kernel.time_limit(20):
+        with kernel.time_limit(120):
             CodeGenerator("M")(dag)
     except kernel.Budget:
         return ("consumer-fails(python,hang)", "Python generator did not terminate on an accepted method")
